@@ -13,7 +13,8 @@ RULE = ("Grid, enumerated exhaustively on every run: destination kind {regular f
         "{file, empty, tree, symlink->file, dangling symlink} x --overwrite on/off x selection "
         "{single index, two indices conflict-first, two indices conflict-last, two entries with the "
         "SAME original location selected together - with the parent directory present or "
-        "removed -} (350 cells); plus "
+        "removed -} (350 cells), the recorded Path with a trailing slash or '..', and the original "
+        "location deeper than PATH_MAX (35 cells); plus "
         "a Hypothesis campaign over the same cells with generated names, contents and trash-dir "
         "kinds. Oracle from lstat snapshots: without --overwrite an existing destination is "
         "unchanged, exit != 0, message on stderr, pair still in the trash; with --overwrite a "
@@ -33,9 +34,9 @@ def examples(tier):
 
 
 def cell(dest, kind, overwrite, sel, name="target", tkind="home", content="trashed-content",
-         other="free", pslash=False):
+         other="free", pslash=False, deep=False):
     return {"dest": dest, "kind": kind, "overwrite": overwrite, "sel": sel, "name": name,
-            "tkind": tkind, "content": content, "other": other, "pslash": pslash}
+            "tkind": tkind, "content": content, "other": other, "pslash": pslash, "deep": deep}
 
 
 def grid(tier):
@@ -44,6 +45,8 @@ def grid(tier):
     g += [cell(d, k, False, "single", pslash=True) for d in DESTS for k in KINDS]
     g += [cell(d, k, False, "single", pslash=ps) for d in DESTS for k in KINDS
           for ps in ("dotdot_missing", "dotdot_existing")]
+    # the original location lies deeper than PATH_MAX (every component within NAME_MAX)
+    g += [cell(d, k, False, "single", deep=True) for d in DESTS for k in KINDS]
     return g
 
 
@@ -54,7 +57,8 @@ def strategy_(draw, tier):
                 draw(st.sampled_from(["home", "top_alt", "top_sticky"])),
                 draw(st.text(alphabet="abc\n", min_size=1, max_size=8)),
                 draw(gen.names(simple=True)),
-                draw(st.sampled_from([False, False, False, False, True, "dotdot_missing", "dotdot_existing"])))
+                draw(st.sampled_from([False, False, False, False, True, "dotdot_missing", "dotdot_existing"])),
+                draw(st.integers(0, 11)) == 0)
 
 
 def strategy(tier):
@@ -71,6 +75,11 @@ def run_case(case):
     else:
         tdir, base = tw.top_trash("/vol", "sticky" if case["tkind"] == "top_sticky" else "alt"), "/vol"
         wd = "/vol/w"
+    deep = bool(case.get("deep")) and case["sel"] == "single" and not case["overwrite"] \
+        and not case.get("pslash")
+    if deep:
+        # > 4096 bytes: no single system call can name the destination, yet it exists
+        wd = wd + "".join("/" + ("%02d" % i) + "d" * 240 for i in range(17))
     tw.nodes.append({"p": wd, "t": "d"})
     tw.nodes.append({"p": wd + "/zz-linktarget-file", "t": "f", "c": "link target"})
     tw.nodes.append({"p": wd + "/zz-linktarget-dir/keep", "t": "f", "c": "keep me"})
@@ -117,7 +126,7 @@ def run_case(case):
         # the second entry has a free destination; dates decide the index order (--sort date)
         odate = "2020-01-03T00:00:00" if case["sel"] == "multi_conflict_first" else "2020-01-01T00:00:00"
         others.append(tw.add(tdir, base, wd + "/" + oname, odate, kind="file", content="second"))
-    spec = tw.spec(cwd=wd)
+    spec = tw.spec(cwd="/" if deep else wd)
     sandbox.build_world(spec)
     if case["sel"] == "multi_same_dest_parent_missing" and d == "absent":
         import shutil
@@ -129,13 +138,14 @@ def run_case(case):
     res = runner.run(spec, "trash-restore", args + (["/"] if spec["cwd"] == "/" else []), stdin=reply)
     after = sandbox.snapshot()
     tags = dict(dest=d, entry=case["kind"], overwrite=case["overwrite"], sel=case["sel"],
-                pslash=str(case.get("pslash") or False))
+                pslash=str(case.get("pslash") or False), deep=deep)
     sigma = subtree(before, e["payload"])
     in_trash = (e["info"] in after and subtree(after, e["payload"]) == sigma and
                 sandbox.sig(after[e["info"]]) == sandbox.sig(before[e["info"]]))
     at_dest = subtree(after, dest) == sigma and dest in after
     out.classes += ["dest:" + d, "entry:" + case["kind"], "overwrite:%s" % case["overwrite"],
-                    "sel:" + case["sel"], "exit:%d" % res.code, "tkind:" + case["tkind"]]
+                    "sel:" + case["sel"], "exit:%d" % res.code, "tkind:" + case["tkind"],
+                    "deep:%s" % deep]
     if d != "absent" and not case["overwrite"]:
         if subtree(after, dest) != subtree(before, dest):
             out.fail("destination_clobbered", "existing %s at %s was changed by a restore without "
@@ -173,6 +183,11 @@ def run_case(case):
         if not (in_trash or at_dest or any(subtree(after, p) == sigma for p in after if p.startswith(wd))):
             out.fail("entry_lost", "Path with trailing slash, free destination: entry neither in "
                      "the trash nor restored", **tags)
+    elif d == "absent" and deep:
+        # (a location nothing can name: restoring there may fail; the entry must not be lost)
+        if not (in_trash or at_dest):
+            out.fail("entry_lost", "destination deeper than PATH_MAX: entry neither in the trash "
+                     "nor restored (exit %d)" % res.code, **tags)
     elif d == "absent":
         if not (at_dest and e["info"] not in after and e["payload"] not in after and res.code == 0):
             out.fail("control_not_restored", "free destination: entry not restored exactly "
@@ -208,6 +223,6 @@ def run_case(case):
                      "nor restored (or both)", **tags)
     if d != "absent" or twin is not None:
         out.key = [d, case["kind"], case["overwrite"], case["sel"], case["tkind"],
-                   gen.name_class(case["name"]), str(case.get("pslash") or False)]
+                   gen.name_class(case["name"]), str(case.get("pslash") or False), deep]
         out.sample = dict(case, exit=res.code)
     return out
